@@ -41,8 +41,8 @@ def run(tier):
     run.functions = ['SqlalchemyRender.get_string(with_failback=False) (real, per member and dialect)', 'prepare_select/prepare_join/to_expression/prepare_insert/update/delete',
                      'mindsdb parser (read-back of the rendered text)']
     run.assumptions = ['the rendered text is read back with the repo\'s mindsdb parser (its grouping is C03\'s subject); counterexamples are replayed on sqlite3 with the original and the rendered text, which also guards against read-back artefacts',
-                       'window functions, string/date functions, CREATE/DROP TABLE are outside SYMREL\'s fragment (C17 covers their contract); mssql/oracle text is not checked here',
-                       'ORDER BY..LIMIT compared under distinct non-NULL sort keys; row order itself is not compared',
+                       'window functions: rank/dense_rank/row_number/count/sum/min/max with PARTITION BY, ORDER BY (direction, NULLS FIRST/LAST) and the ROWS/RANGE BETWEEN frames the grammar accepts; row_number and ROWS frames under distinct window order keys within a partition; other window functions, string/date functions, CREATE/DROP TABLE are outside SYMREL\'s fragment (C17 covers their contract); mssql/oracle text is not checked here',
+                       'ORDER BY..LIMIT compared under pairwise distinct sort-key tuples (ties are the engine\'s choice); ordered top-level results are compared as sequences',
                        'statements the renderer refuses (RIGHT JOIN) fall back to the tree\'s own string: checked to be exactly that string']
     # translator validation of SYMREL on the original statements (queries) against sqlite3
     rnd = random.Random(run.seed)
